@@ -1281,7 +1281,7 @@ def r5_index2slice(ctx):
     else:
         ctx.check(bad is None, "index2slice: the stop of a run is last + step, replaced by None exactly when it is negative (0 stays 0)",
                   (bad[0].ret_node if bad else None) or fn,
-                  None if bad is None else {"regime": bad[0].describe(), "returned": _show(bad[0].ret), "the tests say about stop": list(bad[1] or ["nothing"]),
+                  None if bad is None else {"regime": bad[0].describe(), "returned": _show(bad[0].ret), "the tests say about stop": [str(x) for x in (bad[1] or ["nothing"])],
                                             "consequence": "slice(2, None, -1) also selects element 0 for pv = [2, 1]; a negative stop counts from the end"})
     # single entry: slice(i, i + 1), None exactly when i + 1 == 0
     bad = None
